@@ -38,6 +38,7 @@ SCENARIOS = [
     ("custom,checkpoint", "suspend", {}),
     ("custom,clear_checkpoint", "suspend", {}),
     ("clear_checkpoint,stage,rewindable_off,checkpoint", "pause", {} if THOROUGH else {"max_requests": 2}),
+    ("set_async,custom,checkpoint", "pause,abort", {"max_requests": 2}),
     # two requests in flight at once (a pause right behind a suspension request, and the reverse)
     ("custom,checkpoint", "pause,suspend", {"max_inflight": 2, "max_requests": 2}),
     # what one call leaves behind must not leak into the next call on the same engine
